@@ -16,7 +16,6 @@ From VL Require Import Prelude.Sx Prelude.PyDict Prelude.GDict Model.GetNBest Mo
      Proofs.BucklinShared_proofs Proofs.BucklinLeave_proofs.
 From VL Require Model.Hybrids Proofs.Hybrids_proofs.
 From VL Require Import Proofs.RaisesBallot_proofs Proofs.Scorers_proofs.
-From VL Require Gen.Rankscore.
 Import ListNotations.
 Open Scope Z_scope.
 
@@ -138,17 +137,8 @@ Proof.
   - apply sequence_nonincreasing, H.
 Qed.
 
-(* the same inequalities on the per-rank score expressions GENERATED from votelib/component/rankscore.py (Gen/Rankscore.v; tied to
-   [rank_scores] by Props/GenTie_Rankscore.v): score(rank + 1) <= score(rank) for every rank >= 0 *)
-Theorem C17_gen_scorers_nonincreasing : forall (n r : Z), 0 <= r ->
-  (Gen.Rankscore.Dowdall_score n (r + 1) <= Gen.Rankscore.Dowdall_score n r)%Q /\
-  (forall base : Z, (1 <= base)%Z -> Gen.Rankscore.Geometric_score base n (r + 1) <= Gen.Rankscore.Geometric_score base n r)%Q /\
-  (Gen.Rankscore.ModifiedBorda_score n (r + 1) <= Gen.Rankscore.ModifiedBorda_score n r)%Q /\
-  (forall top : Z, Gen.Rankscore.FixedTop_score top n (r + 1) <= Gen.Rankscore.FixedTop_score top n r)%Q.
-Proof.
-  intros n r Hr. split; [apply gen_dowdall_nonincreasing, Hr|]. split; [intros base Hb; apply gen_geometric_nonincreasing; assumption|].
-  split; [apply gen_modified_borda_nonincreasing|intros top; apply gen_fixed_top_nonincreasing].
-Qed.
+(* the same inequalities on the per-rank score expressions GENERATED from votelib/component/rankscore.py: Props/GenTie_Rankscore_mono.v
+   (C17_gen_scorers_nonincreasing), an obligation of this property while the translator accepts the source *)
 
 (* positional rules, the winner moves up past ANY number of places on a ballot of plain ranks, any scorer with [scorer_ok]
    (the ballot is not longer than the number of candidates: [rank_scores] answers) *)
@@ -685,7 +675,6 @@ Print Assumptions C17_copeland_ballots.
 Print Assumptions C17_minimax_ballots.
 Print Assumptions C17_scorers_nonincreasing_all.
 Print Assumptions C17_scorer_ok.
-Print Assumptions C17_gen_scorers_nonincreasing.
 Print Assumptions C17_positional_any.
 Print Assumptions C17_scorers_conditions_needed.
 Print Assumptions C17_preference_addition_leave_shared.
